@@ -288,7 +288,13 @@ func init() {
 		}
 		return "ok " + keyFields(k) + " " + hx([]byte(k.String()))
 	}
-	generators["C12"] = genC12
+	generators["C12"] = func(h *H) {
+		genC12(h)
+		// imported public keys whose x coordinate is short (leading zero bytes), sits in [N, P) or just below P
+		for _, pt := range h.pointsWithSpecialX(2 * h.budget) {
+			h.doLine("from-public-key-special-x", "bip_frompub "+hx(be32(pt[0]))+" "+hx(be32(pt[1]))+" "+hx(h.randBytes(32)))
+		}
+	}
 	generators["C13"] = genC13
 }
 
@@ -524,6 +530,12 @@ func genC12(h *H) {
 	h.doLine("hardened-from-public", "bip_derive "+hx(seed)+" 2147483648 0 "+strings.Join(deriveOracles(seed, []uint32{0x80000000}, 0), " "))
 }
 
+func doubleSha(b []byte) []byte {
+	a := sha256.Sum256(b)
+	a = sha256.Sum256(a[:])
+	return a[:]
+}
+
 func fixChecksum(b []byte) []byte {
 	if len(b) != 82 {
 		return b
@@ -618,6 +630,23 @@ func genC13(h *H) {
 				mut("version", func(b []byte) { copy(b[0:4], vv) })
 			}
 			mut("depth", func(b []byte) { b[4] = 0xff })
+			// every field survives a round trip whatever the depth says: depth 0 with a fingerprint / child number that
+			// is not zero (an encoding no constructor produces but the decoder accepts), and the other way round
+			mut("depth-zero", func(b []byte) { b[4] = 0 })
+			mut("depth-zero-fields", func(b []byte) { b[4] = 0; b[5], b[8] = 0x34, 0x3e; b[9], b[12] = 0x80, 0x01 })
+			mut("fields-zero", func(b []byte) { copy(b[5:13], make([]byte, 8)) })
+			// text form of an over-long payload with a checksum over everything before it: the text decoder must apply the
+			// same exact-length rule as the binary one
+			{
+				long := append(append([]byte{}, bin[:78]...), h.randBytes(1+h.rng.Intn(6))...)
+				long = append(long, doubleSha(long)[:4]...)
+				str := base58.Bitcoin.Encode(long)
+				h.doLine("overlong-string", "bip_fromstring "+hx([]byte(str))+" b58d="+hx([]byte(str))+":"+hx(long))
+				short := append([]byte{}, bin[:77]...)
+				short = append(short, doubleSha(short)[:4]...)
+				str2 := base58.Bitcoin.Encode(short)
+				h.doLine("short-string", "bip_fromstring "+hx([]byte(str2))+" b58d="+hx([]byte(str2))+":"+hx(short))
+			}
 			for _, pfx := range []int{0, 1, 2, 3, 4, 5, 6, 7, 255} {
 				pp := pfx
 				mut("key-prefix", func(b []byte) { b[45] = byte(pp) })
